@@ -1,5 +1,6 @@
 import MqttVerif.Proofs.WindowPos
 import MqttVerif.Props.C10
+import MqttVerif.Proofs.Local
 /-
   C10: the window in force is never smaller than one message (constructor default 1, `setWindowSize` accepts 1..16), for every protocol
   object after every history -- no invariant, no `Env`.  With `refill_leaves_no_room` this is the form of "no accepted message is left
@@ -19,5 +20,36 @@ theorem refill_leaves_exchange (p : Nat) (dup : Bool) (fuel : Nat) (w : World) (
   rcases refill_leaves_no_room p dup fuel w hf with h | h
   · exact Or.inl h
   · exact Or.inr (by omega)
+
+/-- **after a PUBACK for a message in flight**: the slot it frees is refilled at once -- afterwards no message of the address is held back,
+    or a PUBLISH of the address is awaiting its first acknowledgement -/
+theorem puback_refills {w : World} (h : WInv w) (p : Nat) (ppr : Proto) (hpp : w.protos.get? p = some ppr)
+    (hlive : ppr.lost = false) (hconn : ppr.state = .connected) (hwin : 1 ≤ ppr.window) (m rid : Nat)
+    (hl : Ents.lookup w.ents ppr.addr .pub m = some rid) (hq1 : (w.req rid).qos = 1) :
+    Ents.items (handlePUBACK p m w).1.ents ppr.addr .queue = [] ∨ 0 < Ents.count (handlePUBACK p m w).1.ents ppr.addr .pub := by
+  obtain ⟨t, d, _, _, _, _, he⟩ := handlePUBACK_effect h p ppr hpp hlive hconn m rid hl hq1
+  rw [he]
+  have hpa : ∀ w' : World, w'.protos = w.protos → w'.paddr p = ppr.addr ∧ (w'.proto p).window = ppr.window := fun w' hw' => by
+    simp [World.paddr, World.proto, hw', hpp]
+  obtain ⟨a1, a2⟩ := hpa (fireD (dropArmed w ⟨ppr.addr, .pub, m, rid⟩ t) d (.fired d (.ok (.int m)))) rfl
+  have := refill_leaves_exchange p false (Ents.count (Ents.remove w.ents ppr.addr .pub m) ppr.addr .queue)
+    (fireD (dropArmed w ⟨ppr.addr, .pub, m, rid⟩ t) d (.fired d (.ok (.int m)))) (by rw [a2]; exact hwin) (by rw [a1]; exact Nat.le_refl _)
+  rw [a1] at this
+  exact this
+
+/-- the same after a PUBCOMP -/
+theorem pubcomp_refills {w : World} (h : WInv w) (p : Nat) (ppr : Proto) (hpp : w.protos.get? p = some ppr)
+    (hlive : ppr.lost = false) (hconn : ppr.state = .connected) (hwin : 1 ≤ ppr.window) (m rid : Nat)
+    (hl : Ents.lookup w.ents ppr.addr .rel m = some rid) :
+    Ents.items (handlePUBCOMP p m w).1.ents ppr.addr .queue = [] ∨ 0 < Ents.count (handlePUBCOMP p m w).1.ents ppr.addr .pub := by
+  obtain ⟨t, d, _, _, _, _, he⟩ := handlePUBCOMP_effect h p ppr hpp hlive hconn m rid hl
+  rw [he]
+  have hpa : ∀ w' : World, w'.protos = w.protos → w'.paddr p = ppr.addr ∧ (w'.proto p).window = ppr.window := fun w' hw' => by
+    simp [World.paddr, World.proto, hw', hpp]
+  obtain ⟨a1, a2⟩ := hpa (fireD (dropArmed w ⟨ppr.addr, .rel, m, rid⟩ t) d (.fired d (.ok (.int m)))) rfl
+  have := refill_leaves_exchange p false (Ents.count (Ents.remove w.ents ppr.addr .rel m) ppr.addr .queue)
+    (fireD (dropArmed w ⟨ppr.addr, .rel, m, rid⟩ t) d (.fired d (.ok (.int m)))) (by rw [a2]; exact hwin) (by rw [a1]; exact Nat.le_refl _)
+  rw [a1] at this
+  exact this
 
 end Mqtt.C10
